@@ -175,3 +175,5 @@ Print Assumptions C12_parse_bool_prefix.
 Print Assumptions C12_parse_bool_err_iff.
 Print Assumptions C12_parse_bool_eq_std.
 Print Assumptions C12_parse_bool_frame.
+Print Assumptions C12_signed_min_example.
+Print Assumptions C12_show_int_example.
